@@ -58,14 +58,12 @@ impl Context {
     }
 
     pub fn value(&self, name: &str) -> Result<Value> {
-        let binding = self.0.lock().unwrap();
-        if binding.get(name).is_none() {
-            return Ok(Value::None);
-        }
-        let value = binding.get(name).unwrap();
-        match value {
-            ContextValue::Variable(v) => Ok(v.clone()),
-            ContextValue::Function(func) => func(Vec::new()),
+        // clone the entry out of the lock first: a context function must not run
+        // while the context lock is held (it may lock this context, or panic)
+        match self.get(name) {
+            None => Ok(Value::None),
+            Some(ContextValue::Variable(v)) => Ok(v),
+            Some(ContextValue::Function(func)) => func(Vec::new()),
         }
     }
 }
